@@ -151,7 +151,7 @@ func genGroupCfg(r *core.Rand) gCfg {
 }
 
 func runC03(c *core.Ctx) {
-	c.CasesPar("group", c.N(480, 4000), 4, func(k *core.Case) {
+	c.CasesPar("group", c.N(480, 60000), 4, func(k *core.Case) {
 		cfg := genGroupCfg(k.R)
 		k.Describe(cfg.desc())
 		c03Run(k, cfg)
